@@ -41,12 +41,19 @@ def visit (st : St) : Nat → List String → String → Option (List String)
 def closure (st : St) (req : List String) : Option (List String) :=
   req.foldlM (fun d x => visit st (st.defs.length + 1) d x) []
 
+/-- Keys of plz-out entries are (label, output name): the stamp lives on the output FILE, so an output left
+    behind under an earlier name keeps its own stamp and is trusted again if the target is renamed back. -/
+def keyOf (st : St) (l : String) : String :=
+  match findDef st l with | some a => l ++ "|" ++ a.out | none => l ++ "|"
+
+def labelOfKey (k : String) : String := (k.splitOn "|").headD k
+
 def mkRepo (st : St) (order : List String) : Repo' :=
   { files := fun f => .file ((st.files.lookup f).getD ""),
     fname := id,
-    outName := fun k => match findDef st k with | some a => pkgOf k ++ "/" ++ a.out | none => "",
+    outName := fun k => match k.splitOn "|" with | [l, o] => pkgOf l ++ "/" ++ o | _ => "",
     targets := order.filterMap fun l => (findDef st l).map fun a =>
-      { key := l, attrs := a, srcs := fileSrcsOf a, deps := depsOf a } }
+      { key := keyOf st l, attrs := a, srcs := fileSrcsOf a, deps := (depsOf a).map (keyOf st) } }
 
 def hexS (s : String) : String := hexOfStr s
 
@@ -86,7 +93,7 @@ def step (st : St) (line : String) : St × String :=
       ({ st with defs := st.defs.filter (·.label ≠ label) ++ [a] }, "ok")
     | none => (st, "bad-op")
   | ["deltarget", label] => ({ st with defs := st.defs.filter (·.label ≠ label) }, "ok")
-  | ["rmout", label] => ({ st with out := st.out.filter (·.1 ≠ label) }, "ok")
+  | ["rmout", label] => ({ st with out := st.out.filter (·.1 ≠ keyOf st label) }, "ok")
   | ["wipe"] => ({ st with out := [] }, "ok")
   | ["cacheon"] => ({ st with cacheOn := true }, "ok")
   | ["cacheon", "z"] => ({ st with cacheOn := true }, "ok")     -- dircompress: same contract, the cache is a black box here
@@ -103,29 +110,31 @@ def step (st : St) (line : String) : St × String :=
     | none => (st, "error")
     | some order =>
       let r := mkRepo st order
-      let sel := fun k => order.contains k
-      let keys := (st.out.map (·.1) ++ order).eraseDups
+      let okeys := order.map (keyOf st)
+      let sel := fun k => okeys.contains k
+      let keys := (st.out.map (·.1) ++ okeys).eraseDups
       if st.cacheOn then
         let (out', cache', ran) := buildC generatedFacts mvE2E exec ruleSer pathSer r sel (fun k => st.out.lookup k) (fun q => st.cache.lookup q)
         let outL := keys.filterMap fun k => (out' k).map fun v => (k, v)
         -- cache keys that can have been added: (k, stamp now in plz-out) for k in order
-        let newKeys := order.filterMap fun k => (out' k).map fun v => (k, v.2)
+        let newKeys := okeys.filterMap fun k => (out' k).map fun v => (k, v.2)
         let cacheL := (st.cache.map (·.1) ++ newKeys).eraseDups.filterMap fun q => (cache' q).map fun v => (q, v)
-        let shown := (sortStrs order).map fun k => k ++ "=" ++ (match out' k with | some v => showTree v.1 | none => "missing")
-        ({ st with out := outL, cache := cacheL }, "ran=" ++ ",".intercalate (sortStrs (ran.filter (hasCmd st))) ++ "|" ++ ";".intercalate shown)
+        let shown := (sortStrs order).map fun k => k ++ "=" ++ (match out' (keyOf st k) with | some v => showTree v.1 | none => "missing")
+        ({ st with out := outL, cache := cacheL }, "ran=" ++ ",".intercalate (sortStrs ((ran.map labelOfKey).filter (hasCmd st))) ++ "|" ++ ";".intercalate shown)
       else
       let (out', ran) := buildE2E r sel (fun k => st.out.lookup k)
       let outL := keys.filterMap fun k => (out' k).map fun v => (k, v)
-      let shown := (sortStrs order).map fun k => k ++ "=" ++ (match out' k with | some v => showTree v.1 | none => "missing")
-      ({ st with out := outL }, "ran=" ++ ",".intercalate (sortStrs (ran.filter (hasCmd st))) ++ "|" ++ ";".intercalate shown)
+      let shown := (sortStrs order).map fun k => k ++ "=" ++ (match out' (keyOf st k) with | some v => showTree v.1 | none => "missing")
+      ({ st with out := outL }, "ran=" ++ ",".intercalate (sortStrs ((ran.map labelOfKey).filter (hasCmd st))) ++ "|" ++ ";".intercalate shown)
   | ["clean", ls] =>
     let req := splitList ls
     match closure st req with
     | none => (st, "error")
     | some order =>
       let r := mkRepo st order
-      let res := cleanE2E r (fun k => order.contains k)
-      let shown := (sortStrs order).map fun k => k ++ "=" ++ (match res.lookup k with | some v => showTree v | none => "missing")
+      let okeys := order.map (keyOf st)
+      let res := cleanE2E r (fun k => okeys.contains k)
+      let shown := (sortStrs order).map fun k => k ++ "=" ++ (match res.lookup (keyOf st k) with | some v => showTree v | none => "missing")
       (st, "clean|" ++ ";".intercalate shown)
   | _ => (st, "bad-op")
 
